@@ -16,6 +16,9 @@ CONSTANTS
   MaxUpdates = 1
   MaxCalls = 0
   NPages = 1
+  ListenOwns = TRUE
+  ResubRace = TRUE
+  GenCheck = TRUE
   ModernUnsub = FALSE
   ForeignUnsub = FALSE
   Stepwise = FALSE
